@@ -205,8 +205,9 @@ class gre (packet_base):
                     sl = 0
                     r += ro
                 else: # Better be a sequence...
-                    af,so,sl = ro
+                    af,so,sl = ro[:3]
                     r += struct.pack("!HBB", af, so, sl)
+                    if len(ro) > 3: r += ro[3]
             if sl != 0:
                 self.msg('warning GRE routing did not end with empty entry')
 
@@ -215,6 +216,7 @@ class gre (packet_base):
             r = r[:4] + struct.pack("!H", csum) + r[4+2:]
             self.csum = csum
         elif self.csum is not None:
-            assert checksum(r + payload) == 0
+            if checksum(r + payload) != 0:
+                self.msg('warning GRE checksum does not match')
 
         return r
